@@ -1221,21 +1221,16 @@ pub fn predict_insert(log: &Log, op: &Op) -> InsPred {
 // ------------------------------------------------------------------------------------------
 // expected text of the column list + source of an INSERT, from the model alone
 
-fn quote_iden(n: &str, b: Backend) -> String {
-    let q = match b {
-        Backend::Mysql => '`',
-        _ => '"',
-    };
-    let mut s = String::new();
-    s.push(q);
-    for ch in n.chars() {
-        if ch == q {
-            s.push(q);
-        }
-        s.push(ch);
-    }
-    s.push(q);
-    s
+/// a column name as the tree under test spells a lone identifier (so that a change to identifier
+/// quoting — another property's business — shows on both sides of the comparison)
+fn col_text(n: &str, b: Backend) -> Option<String> {
+    let mut q = SelectStatement::new();
+    q.column(crate::seams::SimIden {
+        name: n.to_string(),
+        live: false,
+    });
+    let t = sel_to_string(&q, b).ok()?;
+    t.strip_prefix("SELECT ").map(|s| s.to_string())
 }
 
 fn sel_to_string(q: &SelectStatement, b: Backend) -> Result<String, String> {
@@ -1264,7 +1259,10 @@ pub fn expected_insert_segment(m: &InsModel, b: Backend) -> Option<String> {
             Backend::Pg => format!(" VALUES {}", vec!["(DEFAULT)"; n].join(", ")),
         });
     }
-    let cols: Vec<String> = m.cols.iter().map(|c| quote_iden(&c.n, b)).collect();
+    let mut cols: Vec<String> = Vec::new();
+    for c in &m.cols {
+        cols.push(col_text(&c.n, b)?);
+    }
     let mut seg = format!(" ({})", cols.join(", "));
     match &m.source {
         InsSrc::None => {}
